@@ -2,6 +2,7 @@ package bus
 
 import (
 	"fmt"
+	"sync"
 
 	"github.com/lugu/qiloop/bus/net"
 	"github.com/lugu/qiloop/type/object"
@@ -13,6 +14,20 @@ type Cache struct {
 	Names    map[string]uint32
 	Services map[uint32]object.MetaObject
 	Endpoint net.EndPoint
+	// client is shared by all the proxies of the cache: the
+	// signal subscriptions are counted per client, two clients on
+	// the same connection would each register to the same signal
+	// and receive the events of both registrations.
+	client     Client
+	clientOnce sync.Once
+}
+
+// sharedClient returns the client used by the proxies of the cache.
+func (s *Cache) sharedClient() Client {
+	s.clientOnce.Do(func() {
+		s.client = NewClient(NewChannel(s.Endpoint, DefaultCap()))
+	})
+	return s.client
 }
 
 // Proxy returns a proxy object to the desired service.
@@ -23,9 +38,7 @@ func (s *Cache) Proxy(name string, objectID uint32) (Proxy, error) {
 	}
 	meta := s.Services[serviceID]
 
-	channel := NewChannel(s.Endpoint, DefaultCap())
-	client := NewClient(channel)
-	return NewProxy(client, meta, serviceID, objectID), nil
+	return NewProxy(s.sharedClient(), meta, serviceID, objectID), nil
 }
 
 // Object creates an object from a reference.
